@@ -8,6 +8,7 @@
   passes — run on `ClientLimiter.new c` for an arbitrary configuration `c` (any integers,
   omitted = 0).  `runOps` yields one verdict per arrival.  Keys are `mask c.setDefault addr`.
 -/
+import MosVerif.Lemmas.TranslatedC15
 import MosVerif.Lemmas.LimiterSpec
 import MosVerif.Lemmas.LimiterGc
 import MosVerif.Lemmas.LimiterConc
